@@ -200,7 +200,25 @@ func endToEnd(r *vkit.R) {
 			// decision must be the one for q, not the one for the impersonator.
 			var impersonator *Req
 			if len(q.Groups) > 0 && q.User != "" && g.Chance(0.3) {
-				impersonator = &Req{User: g.Pick([]string{"imp-admin", "admin", "bob", "system:serviceaccount:kube-system:sa1"}), Groups: []string{g.Pick(ugroups)}}
+				// the impersonator is chosen, where the policy list allows it, so that it would itself be routed differently
+				// (constructed, not drawn: a minimum count must not depend on luck)
+				impUsers := []string{"imp-admin", "admin", "bob", "system:serviceaccount:kube-system:sa1"}
+				u0, g0 := g.Intn(len(impUsers)), g.Intn(len(ugroups))
+			pickImpersonator:
+				for du := 0; du < len(impUsers); du++ {
+					for dg := 0; dg < len(ugroups); dg++ {
+						cand := &Req{User: impUsers[(u0+du)%len(impUsers)], Groups: []string{ugroups[(g0+dg)%len(ugroups)]}}
+						if impersonator == nil {
+							impersonator = cand
+						}
+						asCand := *q
+						asCand.User, asCand.Groups = cand.User, cand.Groups
+						if refPolicies(ps, &asCand) != ref {
+							impersonator = cand
+							break pickImpersonator
+						}
+					}
+				}
 				r.Count("e2e_impersonated", 1)
 			}
 			// same attribute tuple twice with different irrelevant inputs: the decision must be the same
